@@ -47,6 +47,25 @@ Proof.
     intros H; injection H as <- <-; reflexivity.
 Qed.
 
+(* "minimizing twice equals minimizing once" at the level of the identifier: after a minimize that returned
+   true, a second minimize leaves the identifier (variants included) exactly as the first one left it *)
+Theorem C08_li_idem : forall x y,
+  wf_triple (li_lang x) (li_script x) (li_region x) = true ->
+  li_minimize the_tables x = Ok (true, y) -> li_minimize the_tables y = Ok (true, y).
+Proof.
+  intros x y Hwf H. unfold li_minimize at 1 in H. unfold li_apply in H.
+  destruct (minimize the_tables (li_lang x) (li_script x) (li_region x)) as [[[[a b] c]|]| | |] eqn:E; try congruence.
+  injection H as <-.
+  pose proof (C08_idem _ _ _ _ Hwf E : minimize the_tables a b c = Ok (Some (a, b, c))) as Hi.
+  unfold li_minimize. cbn [li_lang li_script li_region li_variants]. rewrite Hi. reflexivity.
+Qed.
+Example C08_li_idem_ex : exists y,
+  li_minimize the_tables (mkLangId (Some (bs "zh"%string)) (Some (bs "Hant"%string)) (Some (bs "TW"%string))
+                                   (Some [bs "macos"%string])) = Ok (true, y)
+  /\ li_variants y = Some [bs "macos"%string] /\ li_script y = None.
+Proof. eexists. split; [vm_compute; reflexivity|split; reflexivity]. Qed.
+Print Assumptions C08_li_idem.
+
 Example C08_ex : wf_triple (Some (bs "zh"%string)) (Some (bs "Hant"%string)) (Some (bs "TW"%string)) = true
   /\ minimize the_tables (Some (bs "zh"%string)) (Some (bs "Hant"%string)) (Some (bs "TW"%string))
      = Ok (Some (Some (bs "zh"%string), None, Some (bs "TW"%string))).
